@@ -1495,8 +1495,10 @@ _ical_proc(struct ical_parser_s p[static 1U])
 				p->ve.t.max_simul = p->globve.t.max_simul;
 			}
 			if (!p->ve.t.run_as.u) {
-				/* bang run_as */
-				p->ve.t.run_as = p->globve.t.run_as;
+				/* bang run_as, user and group that is,
+				 * directory and shell are the event's */
+				p->ve.t.run_as.u = p->globve.t.run_as.u;
+				p->ve.t.run_as.g = p->globve.t.run_as.g;
 			}
 			/* calendar-wide user or group names are shared by
 			 * all events so far, every task must own its strings */
